@@ -178,7 +178,7 @@ def forms(tier):
         out.append(Form("limit-tuple", cw=cw, strand=True, nft=2, ftlist=True))
         out.append(Form("limit-tuple", cw=cw, join="children", level=True))
         out.append(Form("limit-tuple", cw=cw, join="parents"))
-    if tier == "thorough":
+    if tier in ("quick", "thorough"):   # the full shape table costs under a minute: both tiers decide all shapes
         for cw, strand, (nft, ftl) in itertools.product(both, both, [(0, False), (1, False), (1, True), (2, True), (3, True)]):
             out.append(Form("region-tuple", cw=cw, strand=strand, nft=nft, ftlist=ftl))
             out.append(Form("region-str", cw=cw, strand=strand, nft=nft, ftlist=ftl))
